@@ -19,6 +19,7 @@ Nul(t) == [k |-> "nullable", e |-> t]
 LC(t) == [k |-> "lc", e |-> t]
 Map(a, b) == [k |-> "map", key |-> a, val |-> b]
 Tup(es) == [k |-> "tuple", es |-> es]
+JS == [k |-> "json"]
 EN == [k |-> "enum", w |-> 1, names |-> <<<<97>>, <<>>, <<98, 98>>>>, raws |-> <<<<1>>, <<128>>, <<127>>>>]
 \* the type universe, as a sequence (type ASTs of different shapes are never put into one set)
 Types == << F1, F2, ST, BO, FS, UU, NO, PT,
@@ -26,7 +27,7 @@ Types == << F1, F2, ST, BO, FS, UU, NO, PT,
             Nul(F1), Nul(F2), Nul(ST), LC(F1), LC(ST), Map(ST, F1), Map(ST, ST), Map(F1, ST), Tup(<<F1, ST>>), Tup(<<ST>>),
             Arr(Arr(F1)), Arr(Arr(ST)), Arr(Nul(F2)), Arr(Nul(ST)), Arr(LC(ST)), Arr(LC(F1)), Arr(Map(ST, F1)),
             Map(ST, Arr(F1)), Map(LC(ST), Arr(F1)), Map(ST, Nul(F1)), Tup(<<Arr(ST), Nul(F2), LC(F1)>>), Tup(<<Map(ST, F1), Arr(Nul(F1))>>),
-            Arr(Arr(Arr(F1))), Arr(Arr(LC(ST))), Nul(FS), LC(FS), LC(UU), EN, Arr(EN), Nul(EN), LC(EN) >>
+            Arr(Arr(Arr(F1))), Arr(Arr(LC(ST))), Nul(FS), LC(FS), LC(UU), EN, Arr(EN), Nul(EN), LC(EN), JS, Arr(JS), Nul(JS), Map(ST, JS) >>
 Bytes8(x) == [i \in 1..8 |-> x]
 RECURSIVE Vals(_)
 Seqs(S, n) == UNION {[1..m -> S] : m \in 0..n}
@@ -37,7 +38,7 @@ Vals(t) ==
     [] t.k = "bool" -> {<<0>>, <<1>>}
     [] t.k = "fstring" -> {<<0, 0>>, <<65, 66>>}
     [] t.k = "uuid" -> {[i \in 1..16 |-> i], [i \in 1..16 |-> 0]}
-    [] t.k = "string" -> {<<>>, <<97>>, <<98, 0, 255>>}
+    [] t.k \in {"string", "json"} -> {<<>>, <<97>>, <<98, 0, 255>>}
     [] t.k = "nothing" -> {<<>>}
     [] t.k = "enum" -> {t.names[i] : i \in 1..Len(t.names)}
     [] t.k = "point" -> {<<Bytes8(1), Bytes8(2)>>, <<Bytes8(0), Bytes8(0)>>}
